@@ -103,9 +103,11 @@ def run_driver(binary, driver, seed, iters=20000, timeout=600):
     try:
         res = json.loads(line)
     except Exception:
-        # a panic of the real code is a witness too (C03)
-        res = {'driver': driver, 'found': p.returncode not in (0, 2), 'input': 'see stderr', 'expected': 'no panic',
-               'actual': (p.stderr or p.stdout)[-1500:]}
+        # a panic located in the library's own source is a witness too (C03); a panic of the driver decides nothing
+        err = (p.stderr or p.stdout)
+        in_lib = re.search(r'panicked at [^\n]*embedded-cli/src/', err) is not None
+        res = {'driver': driver, 'found': p.returncode not in (0, 2) and in_lib, 'input': 'see stderr', 'expected': 'no panic',
+               'actual': err[-1500:], 'note': '' if in_lib else 'driver panic (not counted)'}
     return res
 
 
@@ -169,13 +171,13 @@ def attributed_functions(res):
 
 def relevant(pid, res, units):
     """does this counterexample witness a violation of property pid?"""
-    if ':' in res.get('driver', ''):
-        return res['driver'].split(':')[1] == pid
     if res.get('expected') == 'no panic':
         return pid == 'C03'
+    if ':' in res.get('driver', ''):
+        return res['driver'].split(':')[1] == pid
     for pre in attributed_functions(res):
         for name, u in units.items():
-            if name.startswith(pre) and pid in u.get('props', []):
+            if name.startswith(pre) and pid in u.get('direct', u.get('props', [])):
                 return True
     return False
 
@@ -199,4 +201,27 @@ def search_modules(pid, modules, seed, work, units, features=('history', 'autoco
                             'how': 'replayed on the real code built from the working tree (visibility-only copy): '
                                    'witness %s %s 20000' % (name, seed or 1)})
                 return res
+    return None
+
+
+def search_support(pid, failures, seed, work, units, features=('history', 'autocomplete', 'help')):
+    """supporting obligations of pid failed: look for a concrete violation of pid itself -- the end-to-end driver
+    filtered to pid, and the function-level drivers of the failing modules when they speak about pid directly"""
+    binary, log = build(work, features)
+    if binary is None:
+        raise RuntimeError('; '.join(log[-2:]))
+    tried = []
+    names = ['cli:%s' % pid]
+    for f in failures:
+        for d in DRIVERS.get(f['function'].split('::')[0], []):
+            if d not in FILTERED and d not in names:
+                names.append(d)
+    for name in names:
+        tried.append(name)
+        res = run_driver(binary, name, seed)
+        if res.get('found') and relevant(pid, res, units):
+            res.update({'seed': seed or 1, 'features': list(features), 'drivers_tried': tried,
+                        'how': 'replayed on the real code built from the working tree (visibility-only copy): '
+                               'witness %s %s 20000' % (name, seed or 1)})
+            return res
     return None
